@@ -17,5 +17,7 @@ def scenarios(tier):
               Scenario('he-census-K2', SRC, ['RECL=3', 'HPK=1', 'PUMP=0'], threads=2, K=2, unwind=3, cover=[1, 2]),
               Scenario('ebr-census-K2', SRC, ['RECL=5', 'PUMP=3'], threads=2, K=2, unwind=3, cover=[1, 2]),
               Scenario('qsbr-census-K2', SRC, ['RECL=8', 'PUMP=3'], threads=2, K=2, unwind=3, cover=[1, 2]),
+              Scenario('hp-census-two-handovers-3threads-K2', SRC, ['RECL=1', 'HPK=2', 'PUMP=0', 'CROSS', 'HOLDER3'], threads=3, K=2, unwind=3, cover=[1, 2],
+                       note='a holder thread keeps both retired nodes pending, so both retiring threads hand their nodes over at exit concurrently'),
               Scenario('hp-census-K3', SRC, ['RECL=1', 'HPK=1', 'PUMP=0'], threads=2, K=3, unwind=3, cover=[1, 2])]
     return s
